@@ -1164,3 +1164,73 @@ Proof.
   unfold tile_bbox. fold g. rewrite Hul. set (r := res_at g l) in *.
   cbn [snd]. rewrite Hy. nia.
 Qed.
+
+Local Open Scope Z_scope.
+
+(* ================================================================== the recursion of transform_meshes *)
+Definition quad_wf (q : quad) : Prop := let '(q0, q1, q2, q3) := q in q0 <= q2 /\ q1 <= q3.
+Definition count_in (qs : list quad) (i j : Z) : nat := length (filter (fun s => in_quadb s i j) qs).
+
+Lemma count_in_app a b i j : count_in (a ++ b) i j = (count_in a i j + count_in b i j)%nat.
+Proof. unfold count_in. rewrite filter_app, app_length. reflexivity. Qed.
+
+Lemma divide_quad_wf q s : quad_wf q -> In s (divide_quad q) -> quad_wf s.
+Proof.
+  destruct q as [[[q0 q1] q2] q3]. intros [Hx Hy] Hin.
+  pose proof (divide_quad_inside q0 q1 q2 q3 s Hx Hy Hin) as H.
+  destruct s as [[[s0 s1] s2] s3]. unfold quad_wf. lia.
+Qed.
+
+(* Whatever the external transformation and whatever is_good decides: the quads produced by the recursion never
+   overlap and never leave the quads they were made from - a pixel of the output image lies in at most as many
+   mesh quads as start quads (one: the whole image) - and every mesh quad carries exactly the source corners
+   dst_quad_to_src computes for it. *)
+Lemma add_meshes_sound fuel T Tinv sb sw sh db dw dh off max_err : forall quads i j,
+  (forall q, In q quads -> quad_wf q) ->
+  (count_in (map fst (add_meshes fuel T Tinv sb sw sh db dw dh off max_err quads)) i j <= count_in quads i j)%nat /\
+  (forall q sq, In (q, sq) (add_meshes fuel T Tinv sb sw sh db dw dh off max_err quads) ->
+                sq = dst_quad_to_src T sb sw sh db dw dh off q).
+Proof.
+  induction fuel as [|fuel IH]; intros quads i j Hwf.
+  - cbn [add_meshes map]. split; [unfold count_in at 1; cbn; lia|intros q sq []].
+  - cbn [add_meshes]. induction quads as [|q quads IHq].
+    + cbn. split; [lia|intros q sq []].
+    + cbn [flat_map]. rewrite map_app, count_in_app.
+      assert (Hq : quad_wf q) by (apply Hwf; left; reflexivity).
+      destruct (IHq (fun q' H => Hwf q' (or_intror H))) as [Hc Hs].
+      change (q :: quads) with ([q] ++ quads). rewrite count_in_app.
+      destruct (mesh_is_good Tinv sb sw sh db dw dh max_err q (dst_quad_to_src T sb sw sh db dw dh off q)) eqn:Eg.
+      * split.
+        -- cbn [map fst]. lia.
+        -- intros q' sq' Hin. apply in_app_or in Hin. destruct Hin as [[Heq|[]]|Hin]; [|exact (Hs q' sq' Hin)].
+           injection Heq as <- <-. reflexivity.
+      * destruct (IH (divide_quad q) i j (fun s Hs' => divide_quad_wf q s Hq Hs')) as [Hc' Hs'].
+        split.
+        -- assert (Hd : (count_in (divide_quad q) i j = count_in [q] i j)%nat).
+           { destruct q as [[[q0 q1] q2] q3]. destruct Hq as [Hx Hy]. unfold count_in.
+             rewrite (divide_quad_partition q0 q1 q2 q3 i j Hx Hy). cbn [filter].
+             destruct (in_quadb (q0, q1, q2, q3) i j); reflexivity. }
+           lia.
+        -- intros q' sq' Hin. apply in_app_or in Hin. destruct Hin as [Hin|Hin]; [exact (Hs' q' sq' Hin)|exact (Hs q' sq' Hin)].
+Qed.
+
+Lemma transform_meshes_sound T Tinv sb sw sh db dw dh off mpe i j :
+  0 <= dw -> 0 <= dh ->
+  (count_in (map fst (transform_meshes T Tinv sb sw sh db dw dh off mpe)) i j <= 1)%nat /\
+  (forall q sq, In (q, sq) (transform_meshes T Tinv sb sw sh db dw dh off mpe) ->
+                sq = dst_quad_to_src T sb sw sh db dw dh off q).
+Proof.
+  intros Hw Hh. unfold transform_meshes. destruct db as [[[d0 d1] d2] d3].
+  destruct (add_meshes_sound 40 T Tinv sb sw sh (d0, d1, d2, d3) dw dh off (mpe * ((d2 - d0) / inject_Z dw)) [(0, 0, dw, dh)] i j) as [Hc Hs].
+  { intros q [<-|[]]. unfold quad_wf. lia. }
+  split; [|exact Hs]. eapply Nat.le_trans; [exact Hc|]. unfold count_in. cbn [filter].
+  destruct (in_quadb (0, 0, dw, dh) i j); cbn; lia.
+Qed.
+
+Local Open Scope Q_scope.
+Example transform_meshes_nonvacuous :
+  let T := fun p : qpt => (fst p + (1 # 524288) * snd p * snd p * snd p, snd p) in
+  let Ti := fun p : qpt => (fst p - (1 # 524288) * snd p * snd p * snd p, snd p) in
+  (* symmetric about y = 0: no error at the centre of the image, still divided *)
+  length (transform_meshes T Ti (-100, -214, 500, 214) 600 428 (0, -150, 400, 150) 400 300 0 1) = 16%nat.
+Proof. vm_compute. reflexivity. Qed.
